@@ -72,7 +72,9 @@ type Op struct {
 	Hs  []int    `json:"hs,omitempty"`
 	F   *CFn     `json:"f,omitempty"`
 	X   *Item    `json:"x,omitempty"`
-	Via string   `json:"via,omitempty"` // "" = package schema, "compose" = through compose's streamReaderPacker
+	// "" = package schema; copy / merge: "compose" = through compose's streamReaderPacker; conv (F = identity):
+	// "any" = through toAnyStreamReader and the interface path of unpackStreamReader, "key" = withKey and back
+	Via string `json:"via,omitempty"`
 	// array: 0 = the slice handed to StreamReaderFromArray is allocated with exactly its length;
 	// 1 = it is a window of one arena shared by the array sources of the case (spare capacity
 	// behind it, in which the items of the array sources created later lie)
